@@ -17,7 +17,8 @@ func ZZH_C15_decision() {
 	zz.Assume(t >= 1)
 	zz.Assume(t <= 1<<20)
 	zz.Assume(avail <= t)
-	zz.Assume(a+r <= avail)
+	zz.Assume(a <= avail) // (not a+r <= avail: that holds for huge a, r through wrap-around)
+	zz.Assume(r <= avail-a)
 	end, pass, err := MakeStrategyDecision(exprs[k], a, r, t, avail)
 	zz.Assert("C15.decision.noerr", err == nil)
 	holds := func(x uint64) bool {
